@@ -682,6 +682,10 @@ func (vm *VM) run() (Addr, bool) {
 			case ConditionContainsKey, ConditionNotContainsKey:
 				x := vm.general(a)
 				y := vm.generalk(c, op < 0)
+				if !y.IsValid() {
+					// y is the nil interface value.
+					y = reflect.Zero(x.Type().Key())
+				}
 				cond = x.MapIndex(y).IsValid()
 			case ConditionContainsNil, ConditionNotContainsNil:
 				x := vm.general(a)
